@@ -46,12 +46,28 @@ Proof.
     rewrite IH; rewrite <- app_assoc; simpl; [reflexivity|exact Hs].
 Qed.
 
-Lemma token_roundtrip s : invb s = true -> import (export s) = Some s.
+Lemma existsb_Zeqb_In d l : In d l -> existsb (Z.eqb d) l = true.
+Proof. intros Hin. apply existsb_exists. exists d. split; [exact Hin|apply Z.eqb_refl]. Qed.
+Lemma existsb_Zeqb_inv d l : existsb (Z.eqb d) l = true -> In d l.
+Proof. intros He. apply existsb_exists in He. destruct He as (x & Hx & Hd). apply Z.eqb_eq in Hd. subst. exact Hx. Qed.
+
+Lemma has_In_keys {V} k (m : list (Z * V)) : has k m = true -> In k (map fst m).
+Proof.
+  unfold has. destruct (get k m) as [v|] eqn:E; [|discriminate]. intros _. apply get_In in E.
+  apply (in_map fst _ (k, v)). exact E.
+Qed.
+
+Lemma token_roundtrip fx s : invb s = true -> import fx (export s) = Some s.
 Proof.
   intros Hinv. unfold invb in Hinv. split_andb Hinv.
   rename Hinv into Hsorted, Hi7 into Hkey, Hi6 into Hmu, Hi5 into Hok, Hi4 into Hmi, Hi3 into Hoi,
          Hi2 into Hbs, Hi1 into Hbok, Hi0 into Hprm, Hi into Hfee.
-  unfold import. unfold validate, export. simpl. rewrite Hprm, Hok, Hbok. simpl.
+  assert (Hsyms : map t_sym (map snd (tokens s)) = map fst (tokens s)) by (apply key_ok_map; exact Hkey).
+  assert (Hval : validate fx (export s) = true).
+  { unfold validate, export. simpl. rewrite Hprm, Hok, Hbok. simpl. destruct fx; [|reflexivity].
+    rewrite Hsyms, (sortedb_keys_nodupb _ Hsorted), Hmu. simpl.
+    apply existsb_Zeqb_In. apply has_In_keys. exact Hfee. }
+  unfold import. rewrite Hval. simpl.
   rewrite add_tokens_ok.
   - change (fold_left ins_t (map snd (tokens s)) []) with (okeyed lt1 t_sym (map snd (tokens s))).
     rewrite (okeyed_roundtrip1 t_sym (tokens s) Hsorted Hkey). rewrite Hfee.
@@ -62,24 +78,24 @@ Proof.
     unfold mu_index_of in Hmi'. unfold own_index_of in Hoi'. unfold ins_m, ins_o.
     rewrite <- Hmi', <- Hoi'. destruct s; reflexivity.
   - intros t _ [].
-  - rewrite (key_ok_map t_sym (tokens s) Hkey). apply (sorted_keys_NoDup lt1 lt1_irrefl).
+  - rewrite Hsyms. apply (sorted_keys_NoDup lt1 lt1_irrefl).
     apply (sortedb_sorted lt1 lt1_trans). exact Hsorted.
   - intros t _ [].
   - apply nodupb_NoDup. exact Hmu.
 Qed.
 
-Lemma token_export_validates_lemma s : invb s = true -> validate (export s) = true.
+Lemma token_export_validates_lemma s : invb s = true -> validate true (export s) = true.
 Proof.
-  intros Hinv. pose proof (token_roundtrip s Hinv) as Hr. unfold import in Hr.
-  destruct (validate (export s)); [reflexivity|discriminate].
+  intros Hinv. pose proof (token_roundtrip true s Hinv) as Hr. unfold import in Hr.
+  destruct (validate true (export s)); [reflexivity|discriminate].
 Qed.
 
 Lemma token_export_fixpoint_lemma s :
-  invb s = true -> exists s', import (export s) = Some s' /\ export s' = export s.
+  invb s = true -> exists s', import true (export s) = Some s' /\ export s' = export s.
 Proof. intros Hinv. exists s. split; [apply token_roundtrip; exact Hinv|reflexivity]. Qed.
 
 Lemma token_queries_preserved_lemma s :
-  invb s = true -> exists s', import (export s) = Some s' /\ queries s' = queries s.
+  invb s = true -> exists s', import true (export s) = Some s' /\ queries s' = queries s.
 Proof. intros Hinv. exists s. split; [apply token_roundtrip; exact Hinv|reflexivity]. Qed.
 
 (** ValidateGenesis does not look for duplicates, InitGenesis panics on them: two tokens with the
@@ -87,18 +103,15 @@ Proof. intros Hinv. exists s. split; [apply token_roundtrip; exact Hinv|reflexiv
 Definition wit_tok (sym mu : Z) : token := mkToken sym true 0 5 6 mu true 100 1000 true 0.
 Definition wit_prm : params := mkParams 400000000000000000 (1, 60000) 100000000000000000 true 0.
 Lemma token_import_total_refuted_lemma :
-  exists g, validate g = true /\ import g = None.
+  exists g, validate false g = true /\ import false g = None.
 Proof. exists (mkGenesis wit_prm [wit_tok 1 1; wit_tok 1 2] []). split; vm_compute; reflexivity. Qed.
 
-(** ... what does hold: a validated genesis whose symbols and min units are pairwise distinct and
-    which contains the token of the issue fee imports *)
-Lemma token_import_total_partial_lemma g :
-  validate g = true -> NoDup (map t_sym (g_tokens g)) -> NoDup (map t_mu (g_tokens g)) ->
-  In (fst (p_fee (g_prm g))) (map t_sym (g_tokens g)) ->
-  import g <> None.
+(** the repaired validation: every validated genesis imports *)
+Lemma token_import_total_lemma g : validate true g = true -> import true g <> None.
 Proof.
-  intros Hv Hs Hm Hfee. unfold import. rewrite Hv. simpl.
-  rewrite add_tokens_ok; [|intros t _ []|exact Hs|intros t _ []|exact Hm].
+  intros Hv. unfold import. rewrite Hv. simpl.
+  unfold validate in Hv. split_andb Hv. clear Hi1 Hi0. split_andb Hi. rename Hi into Hs, Hi1 into Hm, Hi0 into Hf.
+  rewrite add_tokens_ok; [|intros t _ []|apply nodupb_NoDup; exact Hs|intros t _ []|apply nodupb_NoDup; exact Hm].
   assert (Hhas : has (fst (p_fee (g_prm g))) (fold_left ins_t (g_tokens g) []) = true).
   { assert (Hgen : forall l acc k, (In k (map t_sym l) \/ has k acc = true) -> has k (fold_left ins_t l acc) = true).
     { induction l as [|t l IH]; intros acc k Hk; simpl.
@@ -109,7 +122,7 @@ Proof.
         + right. unfold has, ins_t in *. destruct (eq_dec k (t_sym t)) as [->|Hne].
           * rewrite get_oins_same. reflexivity.
           * rewrite get_oins_other by exact Hne. exact Hacc. }
-    apply Hgen. left. exact Hfee. }
+    apply Hgen. left. apply existsb_Zeqb_inv. exact Hf. }
   rewrite Hhas. discriminate.
 Qed.
 
